@@ -133,7 +133,11 @@ def l3_batch(seed, count, nq, driver, outdir, binary=None, profiles=("opt", "loo
         # Int16 fields of the node files, distances of the path JSON
         ops = []
         for (q, acc, egr) in l3._gen_queries(gen, r, ds, prof, nq):
-            q["maxacc"], q["maxegr"] = 1200, 1200
+            # access/egress maxima vary: every generated table row is <= 600 s and the stub answers 100000 s for a stop that is
+            # not in the table, so every maximum in [600, 100000) must give the model's answer; the large values exercise the
+            # walking-radius arithmetic in front of the router ("no limit" is exercised by C18's requests)
+            q["maxacc"] = r.choice([1200, 1200, 900, 40000, 99999])
+            q["maxegr"] = r.choice([1200, 1200, 900, 40000, 99999])
             if q["maxtr"] == MAX_INT and r.chance(0.5):
                 q["maxtr"] = 1200
             ops.append(("route", q, False, acc, egr))
